@@ -45,7 +45,7 @@ def lift(body):
 
 def main():
     kind = sys.argv[1]; outdir = sys.argv[2]
-    repo = sys.argv[sys.argv.index("--repo") + 1] if "--repo" in sys.argv else "/repo"
+    repo = sys.argv[sys.argv.index("--repo") + 1] if "--repo" in sys.argv else os.environ.get("VERIF_REPO", "/repo")
     path, prefix, conv, proto, stubargs = KINDS[kind]
     src = open(os.path.join(repo, path)).read()
     m1 = re.search(r"char\s*\*\s*%s_names\s*\[\]\s*=\s*\{(.*?)\n\};" % prefix, src, re.S)
